@@ -339,7 +339,8 @@ func typeAssert(n *node, withResult, withOk bool) {
 				}
 				return next
 			}
-			if c0.typ.cat == valueT {
+			if c0.typ.cat == valueT || valf.Kind() == reflect.Interface {
+				// The operand is held by an interface value (compiled, or empty interface).
 				valf = reflect.ValueOf(v)
 			}
 			if v.node.typ.id() == typID {
